@@ -32,19 +32,22 @@
 (*      the request runs).  The copies the harness places initially count  *)
 (*      as acknowledged at their timestamp ("arbitrary initial block ages  *)
 (*      relative to the TTL"; the stored timestamp is the time of the last *)
-(*      successful Put/Touch).  GET inside the protected period must       *)
-(*      succeed when an intact copy was seen (GetOk).                      *)
+(*      successful Put/Touch); corrupt placed files are not "that block"   *)
+(*      and protect nothing.                                               *)
 (*  (b) "A trash request acts only on a replica whose stored timestamp     *)
 (*      equals the timestamp named in the request, only on writable        *)
 (*      volumes and only when trashing is enabled"                         *)
-(*                            ScanOk (b): a replica that was there at the   *)
-(*                            previous scan and is gone now needs an        *)
-(*                            ENTITLED trash event in between (Entitled).   *)
+(*                            ScanOk (b): when a DELETE, trash-list item or *)
+(*                            EmptyTrash ran since the previous scan, a      *)
+(*                            replica that was there and is gone now needs   *)
+(*                            an ENTITLED trash event (Entitled).  What      *)
+(*                            other requests do to replicas is not the       *)
+(*                            statement's business (clause (a) still is).    *)
 (*  (c) "a trashed block can be brought back with untrash until its trash  *)
 (*      lifetime has elapsed (deadlines are kept to whole seconds)"        *)
 (*                            ScanOk (c): a new trash file has deadline >=  *)
 (*                            (time of previous scan) + lifetime;           *)
-(*                            UntrashOk: untrash answers 200 while a        *)
+(*                            UntrashOk: untrash answers 2xx while a        *)
 (*                            trashed copy with deadline > now exists on a  *)
 (*                            writable volume, and (ScanOk, last clause)    *)
 (*                            the block is there afterwards unless an       *)
@@ -77,9 +80,10 @@ VARIABLES cc,      \* [n, ro : SUBSET 1..n, trash : BOOLEAN, life, ttl]
           ent,     \* volumes for which an entitled trash event ran since the latest scan
           empAt,   \* latest time an EmptyTrash returned since the latest scan (NegInf if none)
           unt,     \* an untrash ran since the latest scan
-          must     \* an untrash that was obliged to succeed ran since the latest scan
+          must,    \* an untrash that was obliged to succeed ran since the latest scan
+          gc       \* a DELETE, trash-list item or EmptyTrash returned since the latest scan
 
-cvars == <<cc, now, prot, seen, tscan, quiet, pend, ent, empAt, unt, must>>
+cvars == <<cc, now, prot, seen, tscan, quiet, pend, ent, empAt, unt, must, gc>>
 
 NegInf == -100000
 Max(a, b) == IF a >= b THEN a ELSE b
@@ -90,7 +94,8 @@ Writable   == VolsOf(cc) \ cc.ro
 Ids        == 1 .. 3
 NoReq      == [op |-> "none", t0 |-> 0, sole |-> FALSE, mount |-> 0, req |-> 0]
 
-InitProt(c, scan) == SetMax({scan[v].mtu + c.ttl : v \in {w \in VolsOf(c) : scan[w].st # "absent"}})
+(* only INTACT placed copies count as acknowledged blocks (a corrupt file is not "that block") *)
+InitProt(c, scan) == SetMax({scan[v].mtu + c.ttl : v \in {w \in VolsOf(c) : scan[w].st = "intact"}})
 
 (* reset: configuration + first scan *)
 CInit(c, scan) ==
@@ -105,6 +110,7 @@ CInit(c, scan) ==
     /\ empAt = NegInf
     /\ unt = FALSE
     /\ must = FALSE
+    /\ gc = FALSE
 
 ResetEff(c, scan) ==
     /\ cc' = c
@@ -118,10 +124,11 @@ ResetEff(c, scan) ==
     /\ empAt' = NegInf
     /\ unt' = FALSE
     /\ must' = FALSE
+    /\ gc' = FALSE
 
 (* the harness advances the clock *)
 TickEff(d) == /\ now' = now + d
-              /\ UNCHANGED <<cc, prot, seen, tscan, quiet, pend, ent, empAt, unt, must>>
+              /\ UNCHANGED <<cc, prot, seen, tscan, quiet, pend, ent, empAt, unt, must, gc>>
 
 (* A request is called: op, and for op = "trashlist" the target mount (0 = every volume) and the  *)
 (* timestamp token named in the item.  sole = nothing else happens between the scan before it and  *)
@@ -133,7 +140,7 @@ CallEff(id, op, mount, req) ==
                         sole |-> quiet /\ \A i \in Ids : pend[i].op = "none"]
                   ELSE [pend[j] EXCEPT !.sole = FALSE]]
     /\ quiet' = FALSE
-    /\ UNCHANGED <<cc, now, prot, seen, tscan, ent, empAt, unt, must>>
+    /\ UNCHANGED <<cc, now, prot, seen, tscan, ent, empAt, unt, must, gc>>
 
 LiveTrash == \E v \in Writable : \E d \in seen[v].tr : d > now
 
@@ -153,9 +160,9 @@ Entitled(r) ==
 RetOk(id, status) ==
     LET p == pend[id] IN
     /\ p.op # "none"
-    /\ (p.op = "untrash" /\ p.sole /\ LiveTrash) => status = 200                     \* (c)
-    /\ (p.op = "get" /\ p.sole /\ now < prot
-           /\ \E v \in VolsOf(cc) : seen[v].st = "intact") => status = 200            \* (a)
+    /\ (p.op = "untrash" /\ p.sole /\ LiveTrash) => status \in 200 .. 299                \* (c)
+    \* (that a GET inside the protected period succeeds is C01's obligation; checks/C04.py reports a
+    \*  failing GET as drift only)
 
 RetEff(id, status) ==
     LET p == pend[id] IN
@@ -166,13 +173,14 @@ RetEff(id, status) ==
     /\ empAt' = IF p.op = "empty" THEN Max(empAt, now) ELSE empAt                     \* (d)
     /\ unt' = (unt \/ p.op = "untrash")
     /\ must' = (must \/ (p.op = "untrash" /\ p.sole /\ LiveTrash))
+    /\ gc' = (gc \/ p.op \in {"delete", "trashlist", "empty"})
     /\ UNCHANGED <<cc, now, seen, tscan, quiet>>
 
 (* the harness scans the volume directories (only when no request is in flight) *)
 ScanOk(s) ==
     /\ now < prot => \E v \in VolsOf(cc) : s[v].st # "absent"                          \* (a)
     /\ \A v \in VolsOf(cc) :
-          /\ (seen[v].st # "absent" /\ s[v].st = "absent") => v \in ent                \* (b)
+          /\ (gc /\ seen[v].st # "absent" /\ s[v].st = "absent") => v \in ent          \* (b)
           /\ \A d \in s[v].tr \ seen[v].tr : d >= tscan + cc.life                      \* (c)
           /\ \A d \in seen[v].tr \ s[v].tr : d <= empAt \/ unt                         \* (d)
     /\ (must /\ ent = {}) => \E v \in VolsOf(cc) : s[v].st # "absent"                  \* (c)
@@ -185,6 +193,7 @@ ScanEff(s) ==
     /\ empAt' = NegInf
     /\ unt' = FALSE
     /\ must' = FALSE
+    /\ gc' = FALSE
     /\ UNCHANGED <<cc, now, prot, pend>>
 
 (* GET /index (beyond C04's statement; C02 clause "the block index lists only complete blocks     *)
